@@ -2,7 +2,7 @@
     the family number; the verdict says whether the implementation's observed
     behaviour equals the model's. *)
 From Coq Require Import List ZArith Bool.
-From FF Require Import Sx Dispatch TaskTree StoreModel StoreCheck PreCheck EngineMon TaskRun ShareData Vars KeeperCheck MutexCheck Commander ShutdownCheck EngineCoreCheck.
+From FF Require Import Sx Dispatch TaskTree StoreModel StoreCheck PreCheck EngineMon TaskRun ShareData Vars KeeperCheck MutexCheck Commander ShutdownCheck EngineCheck.
 Import ListNotations.
 Local Open Scope Z_scope.
 
